@@ -218,9 +218,11 @@ func notShown(sig string, src Cred, why string, d Desc) string {
 		return sig
 	}
 
-	for _, p := range d.Cons.Fields[fi].Paths {
-		if _, has := src.get(p); has && p < 1000 {
-			return sig
+	f := d.Cons.Fields[fi]
+
+	for _, p := range f.Paths {
+		if v, has := src.get(p); has && p < 1000 && refFilter(f.Filter, v) {
+			return sig // a whole leaf satisfies the field: its disclosure should have been presented
 		}
 	}
 
@@ -228,7 +230,39 @@ func notShown(sig string, src Cred, why string, d Desc) string {
 }
 
 // judge is the property's direct oracle on the implementation's behaviour.
+// arrayAndElement: the descriptor names an array member and, elsewhere, an element of the same array.
+func arrayAndElement(d Desc) bool {
+	rk := requestedKeys(d)
+	for k := range rk {
+		if k >= 1000 && rk[k%1000] {
+			return true
+		}
+	}
+
+	return false
+}
+
+const sigArrayAndElement = "limited-or-predicate-credential-garbled/array-and-element-of-it-both-requested"
+
+// judge classifies a failure on a definition that asks for an array and for an element of it under the known finding
+// (the element is written at its compacted position over the array written whole, or the other way round).
 func judge(c Case, o *Obs) (string, string) {
+	sig, detail := judge0(c, o)
+	if sig == "" {
+		return sig, detail
+	}
+
+	for _, d := range c.Def.Descs {
+		if arrayAndElement(d) && (strings.HasPrefix(sig, "holder-alters-credential") || strings.HasPrefix(sig, "match-alters-credential") ||
+			strings.Contains(sig, "not-showing-requested-field") || strings.HasPrefix(sig, "limit-disclosure-reveals")) {
+			return sigArrayAndElement, detail
+		}
+	}
+
+	return sig, detail
+}
+
+func judge0(c Case, o *Obs) (string, string) {
 	if o.Create != "vp" {
 		return "", "" // the holder produced nothing: the property says nothing
 	}
@@ -589,6 +623,15 @@ func (r *runner) doMSR(kind string, c Case, apply bool, withCoq bool) {
 	} else if !strings.Contains(o.Err, "no descriptors for from") {
 		// a failure inside limit disclosure (BBS+ derivation): outside the model
 		withCoq = false
+	}
+
+	if rec.Oracle == "fail" {
+		for _, d := range c.Def.Descs {
+			if arrayAndElement(d) && (strings.Contains(rec.Sig, "alters-credential") || strings.Contains(rec.Sig, "not-showing-requested-field") ||
+				strings.Contains(rec.Sig, "limit-disclosure-reveals")) {
+				rec.Sig = sigArrayAndElement
+			}
+		}
 	}
 
 	if withCoq && r.coqM < r.maxCq/4 {
